@@ -15,10 +15,31 @@ use std::{
 use crate::io::{FatPage, IoCommand, IoHandle, IoKind};
 
 pub(super) fn write_wal(mut wal_fd: &File, wal_blob: &[u8]) -> std::io::Result<()> {
+    #[cfg(feature = "verif-hooks")]
+    let vt = crate::verif::before(crate::verif::IoOp::SetLen {
+        fd: wal_fd.as_raw_fd(),
+        len: 0,
+    })?;
     wal_fd.set_len(0)?;
+    #[cfg(feature = "verif-hooks")]
+    crate::verif::after(vt, true);
     wal_fd.seek(SeekFrom::Start(0))?;
+    #[cfg(feature = "verif-hooks")]
+    let vt = crate::verif::before(crate::verif::IoOp::Write {
+        fd: wal_fd.as_raw_fd(),
+        offset: 0,
+        data: wal_blob,
+    })?;
     wal_fd.write_all(wal_blob)?;
+    #[cfg(feature = "verif-hooks")]
+    crate::verif::after(vt, true);
+    #[cfg(feature = "verif-hooks")]
+    let vt = crate::verif::before(crate::verif::IoOp::Fsync {
+        fd: wal_fd.as_raw_fd(),
+    })?;
     wal_fd.sync_all()?;
+    #[cfg(feature = "verif-hooks")]
+    crate::verif::after(vt, true);
     Ok(())
 }
 
@@ -26,10 +47,23 @@ pub(super) fn write_wal(mut wal_fd: &File, wal_blob: &[u8]) -> std::io::Result<(
 ///
 /// Conditionally syncs the file to disk.
 pub(super) fn truncate_wal(mut wal_fd: &File, do_sync: bool) -> std::io::Result<()> {
+    #[cfg(feature = "verif-hooks")]
+    let vt = crate::verif::before(crate::verif::IoOp::SetLen {
+        fd: wal_fd.as_raw_fd(),
+        len: 0,
+    })?;
     wal_fd.set_len(0)?;
+    #[cfg(feature = "verif-hooks")]
+    crate::verif::after(vt, true);
     wal_fd.seek(SeekFrom::Start(0))?;
     if do_sync {
+        #[cfg(feature = "verif-hooks")]
+        let vt = crate::verif::before(crate::verif::IoOp::Fsync {
+            fd: wal_fd.as_raw_fd(),
+        })?;
         wal_fd.sync_all()?;
+        #[cfg(feature = "verif-hooks")]
+        crate::verif::after(vt, true);
     }
     Ok(())
 }
@@ -57,7 +91,13 @@ pub(super) fn write_ht(
         sent -= 1;
     }
 
+    #[cfg(feature = "verif-hooks")]
+    let vt = crate::verif::before(crate::verif::IoOp::Fsync {
+        fd: ht_fd.as_raw_fd(),
+    })?;
     ht_fd.sync_all()?;
+    #[cfg(feature = "verif-hooks")]
+    crate::verif::after(vt, true);
 
     Ok(())
 }
